@@ -10,6 +10,8 @@ clipped on (re)decoration; random initial points use one index for both ends;
 SetStrictRanges' stores and (tight, clip) table; bounds constraint wiring.
 Round 3: Nelder-Mead publishes its simplex only with row 0 replaced by its
 constrained image after the last reordering (path-based).
+Round 4: tools.unpair hands the caller's bounds on without a numeric cast (None
+stays None).
 NOT decided: that the reported best lies in the box (runtime consequence of inf
 energies never winning a <), behaviour of impose_bounds/symbolic bounds on vectors.
 """
